@@ -56,6 +56,13 @@ THEOREMS = [
     "C17_run_kinds_repaired",
     "C17_run_kinds_witness",
     "C17_variadic_witness",
+    "C17_dc_mro_as_coded",
+    "C17_dc_mro_own_wins",
+    "C17_dc_mro_isdataclass_witness",
+    "C17_dc_inputs_repaired",
+    "C17_dc_inputs_witness",
+    "C17_preview_per_class",
+    "C17_preview_inherited_witness",
 ]
 RULE = (
     "generated definitions written to REAL source files in the case's cwd and imported from there (inspect/ast "
@@ -86,8 +93,13 @@ RULE = (
     "next to docstrings and comments mentioning return, lambdas, helper functions without and with return statements "
     "(one value, a tuple, two returns), an async helper, a class with a method, a decorated helper, a helper two "
     "compound statements deep, a non-ASCII literal on the line of the return; PARAMETER KINDS: positional-only prefix, "
-    "keyword-only suffix, `*var` / `**var` under reserved and unreserved names; non-trivial = at least one run returned "
-    "a value"
+    "keyword-only suffix, `*var` / `**var` under reserved and unreserved names; SUBCLASS CHAINS: hand-written "
+    "`class C(P)` over one or two concrete hand-written node classes, node_function overridden, the parent previewed / "
+    "instantiated / run before the child is defined, after it, after the child was looked at, or never; DATACLASS "
+    "HIERARCHIES: decorated and undecorated ancestors (1-2), a decorated or dataclass-like leaf that adds members, "
+    "overrides inherited defaults (also by a default factory), ClassVar / InitVar / field(init=False) members at any "
+    "level, kw_only classes; validity of a layout and what it is built from are decided by python's own dataclasses; "
+    "non-trivial = at least one run returned a value"
 )
 TRUSTED = [
     "model FuncWrap transcribes ScrapesIO._build_inputs_preview/_build_outputs_preview/_validate*, "
@@ -102,8 +114,11 @@ TRUSTED = [
     "annotations, get_args of the return annotation) is an INPUT of the model, computed by the harness by plain eval, "
     "independently of the library",
     "the reference binding in the oracle is Python's own inspect.Signature.bind_partial + calling the bare twin function",
-    "which of the Cfg variants (dataclass re-cast, cached transformer return, dictionary class by hash, dataclass node "
-    "class by name) the tree shows is decided by four fixed probes of the tree, not by the case under test",
+    "which of the nine switch values (dataclass re-cast, cached transformer return, dictionary class by hash, dataclass "
+    "node class by name, nested returns, byte columns, variadics by name, positional-only by keyword, raw dataclass "
+    "fields) the tree shows is decided by nine fixed probes of the tree, not by the case under test",
+    "for dataclass hierarchies the reference is python's own `dataclasses` applied to a twin of the layout (same class "
+    "bodies, the leaf decorated): its field table, its __init__ parameters, the object it builds",
     "identity of objects is observed with python's `is` against the pool of nodes_c17 (token `@k.kind` = IS pool object k, "
     "`~k.kind` = a copy of it); in the model an object is `Val.obj id kind` and nothing but the driver's `I<i>:<k>` return "
     "form looks at `id`",
@@ -530,6 +545,15 @@ def gen_fn_case(rng, tier, idx, n=None, exhaustive=False):
         api = "dec"
     if not validate and api in ("dec", "dec_call"):
         api = "dec_labels"
+    subclass = None
+    if not exhaustive and rng.random() < 0.12:
+        # a hand-written node class that extends a CONCRETE hand-written node class (one or two levels up) and overrides
+        # node_function; the parent is previewed / instantiated before the child is defined, after it, or only after
+        # the child was looked at
+        api = "subclass"
+        subclass = {"levels": rng.choice([1, 1, 2]),
+                    "parent_used": rng.choice(["before_def", "before_def", "after_def", "after_child", "never"]),
+                    "how": rng.choice(["preview", "instance", "run"])}
     # --- how the body is built around the return statement, and what else stands in it
     wrap, extras, nonascii = [], [], False
     if layout != "two_returns":
@@ -567,6 +591,8 @@ def gen_fn_case(rng, tier, idx, n=None, exhaustive=False):
         "future": rng.random() < 0.4, "api": api, "layout": layout,
         "wrap": wrap, "extras": extras, "nonascii": nonascii,
     }
+    if subclass is not None:
+        case["subclass"] = subclass
     ctr = _Ctr()
     if exhaustive:
         names = [q["name"] for q in params]
@@ -718,6 +744,18 @@ def gen_xf_case(rng, tier, idx, kind=None, n=None):
             if hp is not None:
                 params = hp
         case["runs"] = [gen_run(rng, ctr, params) for _ in range(nruns)]
+        if any(o in ("cv", "i0") for c in [case, *(case.get("chain") or [])] for o in (c.get("opts") or {}).values()):
+            # members that are no init parameters: values are given by keyword only (a tree that makes inputs of such
+            # members numbers the positions differently, and a value landing on one of them is a matter of type
+            # checking, C04)
+            names = [q["name"] for q in params]
+            for run in case["runs"]:
+                for part in ("inst", "call"):
+                    pos, kw = run[part]
+                    for i, v in enumerate(pos):
+                        if i < len(names) and names[i] not in kw:
+                            kw[names[i]] = v
+                    run[part] = [[], kw]
     return case
 
 
@@ -874,6 +912,23 @@ def corpus():
     yield {"kind": "dc", "id": "c-dc5", "n": 1, "api": "factory", "already": True, "how": "decorator",
            "fields": [["y", "str", "v", "sabc"]], "prior_fields": [["x", "int", "v", "i1"]],
            "runs": [{"inst": [[], {}], "call": [[], {}]}]}
+    # dataclass hierarchies: a ClassVar member (KF-C17-9); the documented dataclass-like class under a real dataclass that
+    # adds members, overrides an inherited default and adds a default factory; an undecorated class in the middle
+    yield {"kind": "dc", "id": "c-dc6", "n": 2, "api": "class", "already": True, "how": "decorator",
+           "fields": [["x", "int", "v", "i1"], ["unit", "str", "v", "sm"]], "opts": {"unit": "cv"},
+           "runs": [{"inst": [[], {}], "call": [[], {}]}]}
+    yield {"kind": "dc", "id": "c-dc7", "n": 3, "api": "helper", "already": False, "how": "decorator",
+           "chain": [{"deco": True, "kw_only": False, "opts": {},
+                      "fields": [["element", "str", "n", None], ["a", "int", "v", "i405"]]}],
+           "fields": [["a", "int", "v", "i361"], ["repeat", "int", "v", "i2"], ["tags", "list", "f", "list()"]],
+           "opts": {},
+           "runs": [{"inst": [["sCu"], {}], "call": [[], {}]},
+                    {"inst": [[], {"element": "sAl"}], "call": [[], {"repeat": "i3"}], "again": True}]}
+    yield {"kind": "dc", "id": "c-dc8", "n": 1, "api": "class", "already": False, "how": "decorator",
+           "chain": [{"deco": True, "kw_only": False, "opts": {}, "fields": [["e", "str", "n", None]]},
+                     {"deco": False, "kw_only": False, "opts": {}, "fields": [["lost", "int", "v", "i7"]]}],
+           "fields": [["z", "int", "v", "i1"], ["s", "int", "v", "i2"]], "opts": {"s": "iv"},
+           "runs": [{"inst": [["sCu"], {}], "call": [[], {"s": "i9"}]}]}
     # the sentinel idiom, a shared mutable default, and sizes past one digit (item_10 is not item_2's neighbour)
     yield {"kind": "fn", "id": "c-f2", "params": [{"name": "value", "ann": None, "default": None},
                                                    {"name": "fallback", "ann": None, "default": "@0.object",
@@ -1069,7 +1124,31 @@ def fn_source(case, h):
         lines += ["@as_function_node()"]
     elif api == "dec_labels":
         lines += [f"@as_function_node({dec_args})"]
+    sub = case.get("subclass")
+    use = []
+    if sub is not None:
+        top = f"P_{h}" if sub["levels"] == 1 else f"P2_{h}"
+        use = {"preview": [f"{top}.preview_io()"], "instance": [f"{top}(label='p')"],
+               "run": [f"{top}(label='p')(1, 2)"]}[sub["how"]]
+        lines += ["from pyiron_workflow.nodes.function import Function", "",
+                  f"def _par_{h}(u, v: int = 1):", "    w = u", "    return w", "",
+                  f"class P_{h}(Function):", f"    node_function = staticmethod(_par_{h})", ""]
+        if sub["levels"] == 2:
+            lines += [f"def _par2_{h}(s, t):", "    q = s", "    return q, t", "",
+                      f"class P2_{h}(P_{h}):", f"    node_function = staticmethod(_par2_{h})", ""]
+        if sub["parent_used"] == "before_def":
+            lines += use + [""]
     lines += [f"def F_{h}({sig}){ann}:", body_src, ""]
+    if sub is not None:
+        lines += [f"class C_{h}({top}):", f"    node_function = staticmethod(F_{h})"]
+        if labels is not None:
+            lines += [f"    _output_labels = ({lab_args},)"]
+        if not case["validate"]:
+            lines += ["    _validate_output_labels = False"]
+        lines += [""]
+        if sub["parent_used"] == "after_def":
+            lines += use + [""]
+        lines += ["def use_parent():", *["    " + u for u in use], f"    return {top}", ""]
     if api == "to_fn":
         lines += [f"def make():", f"    return to_function_node('N_{h}', F_{h}{', ' if dec_args else ''}{dec_args})", ""]
     return "\n".join(lines)
@@ -1488,6 +1567,8 @@ def _run(case, h, modname, variant):
             api = case["api"]
             if api == "to_fn":
                 cls = mod.make()
+            elif api == "subclass":
+                cls = getattr(mod, f"C_{h}")
             elif api == "fn_node":
                 from pyiron_workflow.nodes.function import function_node
 
@@ -1606,6 +1687,15 @@ def _run(case, h, modname, variant):
                 cls = T.as_dataclass_node(Ds[0])
                 make_inst = lambda a, k: cls(*a, **k)  # noqa: E731
         prev = cls.preview_io()
+        if kind == "fn" and case.get("subclass") is not None:
+            # the parent class keeps showing ITS OWN function, whatever was looked at first
+            sub = case["subclass"]
+            top = mod.use_parent() if sub["parent_used"] in ("after_child", "never") else \
+                getattr(mod, f"P_{h}" if sub["levels"] == 1 else f"P2_{h}")
+            pp = top.preview_io()
+            want = (["u", "v"], ["w"]) if sub["levels"] == 1 else (["s", "t"], ["q", "t"])
+            facts["parent_preview"] = {"got": [list(pp["inputs"]), list(pp["outputs"])], "exp": [want[0], want[1]],
+                                       "ok": (list(pp["inputs"]), list(pp["outputs"])) == want}
     except Exception as e:  # noqa: BLE001
         facts["def_error"] = f"{type(e).__name__}: {str(e)[:160]}"
         facts["def_error_kind"] = _classify_def(e)
@@ -1670,7 +1760,7 @@ def _run(case, h, modname, variant):
     def cmp_in(got):  # got: [(label, hint object, default token)]
         return {"got": [[k, hint_tok(hh), d] for k, hh, d in got],
                 "exp": [[k, hint_tok(hh), d] for k, hh, d in exp_in],
-                "ok": len(got) == len(exp_in) and all(g[0] == e[0] and g[1] == e[1] and g[2] == e[2]
+                "ok": len(got) == len(exp_in) and all(g[0] == e[0] and _hint_eq(g[1], e[1]) and g[2] == e[2]
                                                       for g, e in zip(got, exp_in))}
 
     def cmp_out(got, exp):  # [(label, hint object)]; a dataclass node is hinted with its own (per use) class: labels only
@@ -1719,7 +1809,8 @@ def _run(case, h, modname, variant):
             if kind == "dc":
                 # "the dataclass built from the inputs": what the fields of Python's own instance hold
                 # (an InitVar is an argument of the build, not an attribute of what is built)
-                rf["py_args"] = [tok(getattr(exp, nm)) if hasattr(exp, nm) else (tok(ex[nm]) if nm in ex else tok(d))
+                real = {f.name for f in _dcs.fields(exp)}
+                rf["py_args"] = [tok(getattr(exp, nm)) if nm in real else (tok(ex[nm]) if nm in ex else tok(d))
                                  for nm, d in zip(names, py_defaults)]
             else:
                 rf["py_args"] = [tok(ex[nm]) if nm in ex else tok(d) for nm, d in zip(names, py_defaults)]
@@ -1775,6 +1866,14 @@ def _run(case, h, modname, variant):
 
 class _NoDemandT:
     pass
+
+
+def _hint_eq(a, b):
+    import dataclasses
+
+    if isinstance(a, dataclasses.InitVar) and isinstance(b, dataclasses.InitVar):
+        return a.type == b.type  # (InitVar objects compare by identity; two class bodies make two of them)
+    return a == b
 
 
 _ANY = _NoDemandT()  # "no demand on this hint"
@@ -2025,6 +2124,10 @@ def oracle(case, r):
             fails.append(_f(case, "preview-outputs", f"expected {po['exp']}, preview_io gives {po['got']}"))
         elif not po["ok"]:
             fails.append(_f(case, "preview-output-hints", f"expected {po['exp']}, preview_io gives {po['got']}"))
+    pp = F.get("parent_preview")
+    if pp is not None and not pp["ok"] and not fails:
+        fails.append(_f(case, "parent-preview", f"the parent class's own function has inputs/outputs {pp['exp']}, its "
+                        f"preview_io shows {pp['got']}"))
     # every instance carries the class-level description
     if not fails:
         for i, rf in enumerate(F.get("runs", [])):
